@@ -230,6 +230,7 @@ main(void)
     rm_rf(dir);
     if (n == 11 && !strcmp(tok[0], "K")) {
       const char     sk = tok[1][0], ds = tok[3][0];
+      int            keep_fd = -1;
       unsigned char *sb = NULL, *db = NULL;
       const size_t   sl = parse_bytes(tok[2], &sb), dl = parse_bytes(tok[4], &db);
       const int      overwrite = atoi(tok[5]);
@@ -243,6 +244,11 @@ main(void)
         bad |= mkdir(srcp, 0700);
       } else if (sk == 'O') {
         snprintf(srcp, sizeof(srcp), "/dev/null");
+      } else if (sk == 'I') {
+        // a FIFO that holds five bytes and has a writer (this process), so that opening it for reading returns
+        bad |= mkfifo(srcp, 0600);
+        keep_fd = open(srcp, O_RDWR | O_NONBLOCK);
+        bad |= keep_fd < 0 || write(keep_fd, "hello", 5) != 5;
       }
       // destination
       if (ds == 'F') {
@@ -259,6 +265,9 @@ main(void)
       bad |= parse_script(tok[10]);
       if (bad) {
         puts("bad-case");
+        if (keep_fd >= 0) {
+          close(keep_fd);
+        }
         free(sb);
         free(db);
         continue;
@@ -277,7 +286,7 @@ main(void)
       errno            = atoi(tok[9] + closed0);
       vw_active        = 1;
       const ZixStatus st =
-        zix_copy_file(&track.base, srcp, dstp, overwrite ? ZIX_COPY_OPTION_OVERWRITE_EXISTING : ZIX_COPY_OPTION_NONE);
+        zix_copy_file(&track.base, srcp, dstp, (ZixCopyOptions)(unsigned)overwrite); // the token IS the option value
       vw_active      = 0;
       const int fds1 = count_fds();
       if (closed0) {
@@ -309,6 +318,9 @@ main(void)
         fputs("-", stdout);
       }
       printf(" fds= %d || %s\n", fds1 - fds0, vw_log);
+      if (keep_fd >= 0) {
+        close(keep_fd);
+      }
       free(sb);
       free(db);
     } else if (n == 3 && !strcmp(tok[0], "X")) {
